@@ -9,6 +9,7 @@ import (
 	"os"
 	"path/filepath"
 	"sort"
+	"strings"
 	"time"
 
 	"github.com/FollowTheProcess/msg"
@@ -381,6 +382,15 @@ func (a *App) clean(spokfile *file.SpokFile) error {
 				}
 			}
 			toRemove = append(toRemove, resolved)
+		}
+	}
+
+	// An output may evaluate to anything (e.g. "" or ".."), whatever it says the spokfile,
+	// the directory it lives in and everything above it are never build artifacts
+	for _, file := range toRemove {
+		rel, err := filepath.Rel(file, spokfile.Path)
+		if err == nil && rel != ".." && !strings.HasPrefix(rel, ".."+string(filepath.Separator)) {
+			return fmt.Errorf("Refusing to clean %s: it is or contains the spokfile at %s", file, spokfile.Path)
 		}
 	}
 
